@@ -1,6 +1,7 @@
 //! Leg A — formatting through a simulated `fmt::Write` sink (DESIGN.md §3).
 
 use crate::common::*;
+use crate::jsonleg::{SimWriter, WriterPlan};
 use crate::prng::{Hash64, Rng};
 use crate::values::{hexword, ref_valid_bits, SIGN};
 use serde::{Deserialize, Serialize};
@@ -42,6 +43,11 @@ pub struct FmtCase {
     pub plus: bool,
     pub prec: Option<usize>,
     pub sink: SinkPlan,
+    /// when present the value is formatted into a simulated `io::Write`
+    /// (`write!(file, "{}", x)`: std's io::Write::write_fmt adapter sits
+    /// between the formatter and the stream) instead of the `fmt::Write` sink
+    #[serde(default)]
+    pub io: Option<WriterPlan>,
 }
 
 /// The simulated sink: append-only byte store with a fault plan.
@@ -142,6 +148,11 @@ macro_rules! spec_dispatch {
 /// Code under test: the crate's three format impls, reached through the real
 /// `core::fmt` machinery.
 pub fn render_tf(w: &mut dyn Write, x: &TwoFloat, tr: Tr, plus: bool, prec: Option<usize>) -> fmt::Result {
+    spec_dispatch!(w, x, tr, plus, prec)
+}
+
+/// The same through `io::Write::write_fmt`.
+pub fn render_tf_io(w: &mut dyn std::io::Write, x: &TwoFloat, tr: Tr, plus: bool, prec: Option<usize>) -> std::io::Result<()> {
     spec_dispatch!(w, x, tr, plus, prec)
 }
 
@@ -323,6 +334,66 @@ pub fn execute(c: &FmtCase) -> LegReport {
     check_content(c, &full, &mut v, &mut rep.probes);
     rep.violations.extend(v);
 
+    // 2'. formatting into a simulated io::Write
+    if let Some(plan) = &c.io {
+        rep.faulted = plan.is_faulty();
+        rep.probes.hit("fmt_via_io_write");
+        let mut w = SimWriter::new(plan);
+        let r = guarded(|| render_tf_io(&mut w, &x, c.tr, c.plus, c.prec));
+        rep.steps += w.calls as u64;
+        rep.log.u64(w.log.finish());
+        rep.sig.u64(w.sig.finish());
+        if w.interrupts > 0 {
+            rep.faults_fired.add("fmt_io_interrupted", w.interrupts as u64);
+        }
+        if w.shorts > 0 {
+            rep.faults_fired.add("fmt_io_short_write", w.shorts as u64);
+        }
+        if w.hard_fired {
+            rep.faults_fired.hit("fmt_io_hard_error");
+        }
+        if w.zero_fired {
+            rep.faults_fired.hit("fmt_io_zero_length_write");
+        }
+        match r {
+            Err(msg) => rep.violations.push(viol("PANIC", format!("fmt into io::Write panicked: {msg}"))),
+            Ok(res) => {
+                let hard = w.hard_fired || w.zero_fired;
+                rep.sig.byte(res.is_ok() as u8);
+                rep.sig.byte(hard as u8);
+                if hard {
+                    if res.is_ok() && w.data != full.as_bytes() {
+                        rep.violations.push(viol(
+                            "FMT_ACK_INCOMPLETE",
+                            format!(
+                                "write! into an io::Write returned Ok after the stream failed; it holds {} of {} bytes",
+                                w.data.len(),
+                                full.len()
+                            ),
+                        ));
+                    } else if res.is_err() {
+                        rep.probes.hit("fmt_io_error_propagated");
+                    }
+                } else if res.is_err() {
+                    rep.violations.push(viol("FMT_SPURIOUS_ERR", "write! into an io::Write failed although only short writes / EINTR occurred"));
+                } else if w.data != full.as_bytes() {
+                    rep.violations.push(viol("FMT_CONTENT", "rendering into an io::Write differs from rendering into a String"));
+                } else {
+                    rep.probes.hit("fmt_io_benign_faults_transparent");
+                }
+                if !full.as_bytes().starts_with(&w.data) {
+                    rep.violations.push(viol(
+                        "FMT_GARBAGE_PREFIX",
+                        format!("stream holds {:?}, not a prefix of {:?}", clip(&String::from_utf8_lossy(&w.data)), clip(&full)),
+                    ));
+                }
+                rep.outcome = format!("io::Write {} hard={} {}/{} bytes in {} calls", if res.is_ok() { "Ok" } else { "Err" }, hard, w.data.len(), full.len(), w.calls);
+            }
+        }
+        rep.sig.u64(rep.violations.len() as u64);
+        return rep;
+    }
+
     // 2. the same rendering through the faulty sink
     if c.sink.is_faulty() {
         rep.faulted = true;
@@ -414,9 +485,41 @@ pub fn generate(r: &mut Rng, hi: u64, lo: u64) -> FmtCase {
             Some(((1u64 << bits) + r.below(1u64 << bits)).min(1100) as usize)
         }
     };
-    let mut c = FmtCase { hi, lo, tr, plus, prec, sink: SinkPlan::default() };
+    let mut c = FmtCase { hi, lo, tr, plus, prec, sink: SinkPlan::default(), io: None };
     if r.chance(35, 100) {
         return c; // fault-free configuration
+    }
+    if r.chance(1, 4) {
+        // format into an io::Write with its own fault plan
+        let x = raw_twofloat(hi, lo);
+        let ideal = WriterPlan::default();
+        let mut w = SimWriter::new(&ideal);
+        let ncalls = match guarded(|| render_tf_io(&mut w, &x, tr, plus, prec)) {
+            Ok(_) => w.calls.max(1),
+            Err(_) => 1,
+        };
+        let mut plan = WriterPlan { sticky: r.bool(), ..Default::default() };
+        if r.bool() {
+            plan.max_chunk = Some(1 + r.usize_below(9));
+        }
+        if r.bool() {
+            let n = 1 + r.small(3) as usize;
+            for _ in 0..n {
+                plan.interrupt_calls.push(r.usize_below(ncalls * 2));
+            }
+            plan.interrupt_calls.sort_unstable();
+            plan.interrupt_calls.dedup();
+        }
+        match r.below(3) {
+            0 => plan.fail_at_call = Some(r.usize_below(ncalls)),
+            1 => plan.zero_at_call = Some(r.usize_below(ncalls)),
+            _ => {}
+        }
+        if !plan.is_faulty() {
+            plan.fail_at_call = Some(r.usize_below(ncalls));
+        }
+        c.io = Some(plan);
+        return c;
     }
     let x = raw_twofloat(hi, lo);
     let (nchunks, nbytes) = match guarded(|| render_ideal(&x, &c)) {
@@ -449,10 +552,35 @@ pub fn shrink(c: &FmtCase) -> Vec<FmtCase> {
         }
     };
     // drop faults
+    if c.io.is_some() {
+        push(&|d| d.io = Some(WriterPlan::default()));
+        push(&|d| {
+            if let Some(p) = d.io.as_mut() {
+                p.max_chunk = None
+            }
+        });
+        push(&|d| {
+            if let Some(p) = d.io.as_mut() {
+                p.interrupt_calls.clear()
+            }
+        });
+        push(&|d| {
+            if let Some(p) = d.io.as_mut() {
+                p.fail_at_call = p.fail_at_call.map(|k| k / 2)
+            }
+        });
+        push(&|d| {
+            if let Some(p) = d.io.as_mut() {
+                p.zero_at_call = p.zero_at_call.map(|k| k / 2)
+            }
+        });
+    }
     push(&|d| d.sink = SinkPlan::default());
     push(&|d| d.sink.capacity = None);
     push(&|d| d.sink.fail_at_chunk = None);
-    push(&|d| d.sink.sticky = true);
+    if c.sink.is_faulty() {
+        push(&|d| d.sink.sticky = true);
+    }
     if let Some(k) = c.sink.fail_at_chunk {
         push(&|d| d.sink.fail_at_chunk = Some(0));
         push(&|d| d.sink.fail_at_chunk = Some(k / 2));
